@@ -134,4 +134,7 @@ def run(tier, seed, replay=None):
                 rep.oracle_failures.append({"clause": "a type matching no block must have no such item (expected E0599)",
                                             "rc": r["rc"], "errors": PC.error_lines(r)[:3], "program": prog, "invocation": plan.invocation_text()})
     shape.validate(rep, exe, ok_plans, PROP)
+    # the Lean model of the three generators (Expand.lean) against the real helper trait / helper impls / main impl
+    from . import expandcorr
+    expandcorr.compare(rep, exe, ok_plans)
     return rep.finish()
